@@ -45,7 +45,7 @@ def classify (ac : ApiCfg) (s : Sys) (line : String) : Option (Bool × Bool) :=
   match parseOp ((parts.headD "").splitOn " " |>.filter (· ≠ "")) with
   | some op =>
     if !op.valid s then none else
-    match toMOp s op with
+    match toMOp ac s op with
     | none => some (false, false)
     | some m => some (true, decide (m.valid ac.cfg [0, 1, 2, 3] ⟨s.w, aliveList s⟩))
   | none => none
